@@ -21,7 +21,32 @@ mod shared {
         pub(crate) mod itime;
     }
 }
-use shared::util::itime::{IDate, IEpochDay, IWeekday};
+pub(crate) const SEC: &str = "static_itime";
+pub(crate) const PFX: &str = "static";
+
+/// The same file as jiff itself compiles it (`src/shared/util/itime.rs`; the
+/// jiff-static copy above is generated from it). Its `IDate`/`IDateTime`
+/// routines are crate-private in jiff and reachable there only through POSIX
+/// time-zone rule evaluation, so they are checked here directly, on every date,
+/// by the same code as the generated copy.
+#[allow(dead_code, unused_imports, unused_macros, unexpected_cfgs)]
+mod rt {
+    pub(crate) const SEC: &str = "runtime_itime";
+    pub(crate) const PFX: &str = "runtime-itime";
+    pub(crate) mod shared {
+        pub(crate) mod util {
+            // one error type for both copies: the `err!` macro of either file
+            // names `crate::shared::util::error::Error`
+            pub(crate) mod error {
+                pub(crate) use crate::shared::util::error::{err, Error};
+            }
+            #[path = "/repo/src/shared/util/itime.rs"]
+            pub(crate) mod itime;
+        }
+    }
+    #[path = "/verif/harness/vf/src/bin/c01/stat.rs"]
+    pub(crate) mod stat;
+}
 
 #[path = "c01/ctor2.rs"]
 mod ctor2;
@@ -299,7 +324,7 @@ fn main() {
                 let mut n = 0;
                 loop {
                     n += 1;
-                    check_idate(&r, &s, min, max);
+                    stat::check_idate(&r, &s, min, max);
                     stat::check_idate_ext(&r, &s, min, max, r.thorough());
                     if s.epoch_day == hi {
                         break;
@@ -320,6 +345,29 @@ fn main() {
         if !same {
             r.note("crates/jiff-static/src/shared/util/itime.rs differs textually from src/shared/util/itime.rs (beyond the generated-by header)");
         }
+    });
+
+    r.section("runtime_itime", || {
+        let n: u64 = bounds
+            .par_iter()
+            .map(|&(lo, hi)| {
+                let mut s = start_state(lo);
+                let mut n = 0;
+                loop {
+                    n += 1;
+                    rt::stat::check_idate(&r, &s, min, max);
+                    rt::stat::check_idate_ext(&r, &s, min, max, r.thorough());
+                    if s.epoch_day == hi {
+                        break;
+                    }
+                    s = s.next();
+                }
+                n
+            })
+            .sum();
+        r.add_validated(n * (10 + rt::stat::N_STATIC_EXT));
+        r.count("runtime_itime_dates", n);
+        rt::stat::run_small(&r);
     });
 
     r.require(r.get_count("dates_checked") == total as u64 || r.only_section.is_some(), "all 7304484 dates visited");
@@ -398,56 +446,3 @@ fn check_date(r: &Report, s: &Succ, epoch: Date, min: i64, max: i64) {
     }
 }
 
-fn check_idate(r: &Report, s: &Succ, min: i64, max: i64) {
-    let case = || format!("static {:04}-{:02}-{:02}", s.y, s.m, s.d);
-    let res = guard(|| -> Vec<(&'static str, String)> {
-        let mut bad = vec![];
-        let d = match IDate::try_new(s.y as i16, s.m as i8, s.d as i8) {
-            Ok(d) => d,
-            Err(e) => return vec![("try_new", e.to_string())],
-        };
-        macro_rules! chk {
-            ($name:expr, $got:expr, $want:expr) => {
-                let g = $got;
-                let w = $want;
-                if g != w {
-                    bad.push(($name, format!("jiff-static {:?} model {:?}", g, w)));
-                }
-            };
-        }
-        chk!("to_epoch_day", d.to_epoch_day().epoch_day as i64, s.epoch_day);
-        let back = IEpochDay { epoch_day: s.epoch_day as i32 }.to_date();
-        chk!("to_date", (back.year as i64, back.month as i64, back.day as i64), (s.y, s.m, s.d));
-        chk!("weekday", (d.weekday().to_monday_one_offset() % 7) as u8, s.wd);
-        chk!("epoch_weekday", (IEpochDay { epoch_day: s.epoch_day as i32 }.weekday().to_monday_one_offset() % 7) as u8, s.wd);
-        chk!("days_in_month", shared::util::itime::days_in_month(s.y as i16, s.m as i8) as i64, cal::days_in_month(s.y, s.m));
-        chk!("is_leap_year", shared::util::itime::is_leap_year(s.y as i16), cal::is_leap(s.y));
-        let n = s.next();
-        let tom = d.tomorrow().ok().map(|t| (t.year as i64, t.month as i64, t.day as i64));
-        chk!("tomorrow", tom, if s.epoch_day < max { Some((n.y, n.m, n.d)) } else { None });
-        let p = s.prev();
-        let yes = d.yesterday().ok().map(|t| (t.year as i64, t.month as i64, t.day as i64));
-        chk!("yesterday", yes, if s.epoch_day > min { Some((p.y, p.m, p.d)) } else { None });
-        if s.d == 1 {
-            for nth in [-5i64, -1, 1, 2, 5] {
-                for wd in 0..7u8 {
-                    let want = cal::nth_weekday_of_month(s.y, s.m, nth, wd);
-                    let got = d
-                        .nth_weekday_of_month(nth as i8, IWeekday::from_sunday_zero_offset(wd as i8))
-                        .ok()
-                        .map(|t| cal::days_from_civil(t.year as i64, t.month as i64, t.day as i64));
-                    chk!("nth_weekday_of_month", got, want);
-                }
-            }
-        }
-        bad
-    });
-    match res {
-        Err(p) => r.viol("static_itime", &format!("static/{}", panic_sig(&p)), case(), p),
-        Ok(bad) => {
-            for (name, detail) in bad {
-                r.viol("static_itime", &format!("static/{}", name), case(), detail);
-            }
-        }
-    }
-}
